@@ -503,3 +503,55 @@ pub fn byzantine_history(r: &mut Rng, g: &mut G, n: usize) -> Vec<Step> {
     steps.push(Step::Scan { n: 1 });
     steps
 }
+
+/// writer history that takes the length across a compact-encoding varint boundary (252/253,
+/// 65535/65536) with a NON-flushing operation (the first op after open flushes, then every 4th),
+/// followed by more unflushed operations and a reopen
+pub fn varint_boundary_history(r: &mut Rng, g: &mut G) -> Vec<Step> {
+    let boundary: u64 = if r.chance(1, 4) { 65536 } else { 253 };
+    let mut steps = vec![];
+    let below = boundary - r.range(1, 6);
+    // op 1 (flushes): bring the log just below the boundary
+    steps.push(Step::Fill { n: 0, count: below as u32, size: *r.pick(&[0u32, 1, 1, 2]), tag0: g.next_tag });
+    g.next_tag += below as u32;
+    g.len = below;
+    if r.chance(1, 2) {
+        steps.push(Step::Reopen { n: 0 });
+        let blk = g.small_blk(1);
+        g.len += 1;
+        steps.push(Step::Append { n: 0, blk }); // flushing op after the reopen
+    }
+    // 0..2 non-flushing fillers, then the crossing op, then 1..3 more ops, then reopen
+    for _ in 0..r.below(3) {
+        if g.len + 1 < boundary {
+            let blk = g.small_blk(r.below(3) as u32);
+            g.len += 1;
+            steps.push(Step::Append { n: 0, blk });
+        }
+    }
+    let need = boundary - g.len;
+    let k = need + r.below(4);
+    let blks: Vec<Blk> = (0..k).map(|_| g.small_blk(1)).collect();
+    g.len += k;
+    steps.push(Step::Batch { n: 0, blks });
+    for _ in 0..r.range(1, 3) {
+        match r.below(3) {
+            0 => {
+                let (s, e) = g.clear_range(r);
+                steps.push(Step::Clear { n: 0, start: s, end: e.min(g.len) });
+            }
+            _ => {
+                let blk = g.small_blk(r.below(4) as u32);
+                g.len += 1;
+                steps.push(Step::Append { n: 0, blk });
+            }
+        }
+    }
+    steps.push(Step::Reopen { n: 0 });
+    steps.push(Step::Info { n: 0 });
+    let blk = g.small_blk(2);
+    g.len += 1;
+    steps.push(Step::Append { n: 0, blk });
+    steps.push(Step::Reopen { n: 0 });
+    steps
+}
